@@ -154,7 +154,25 @@ BOUNDARY_IPS = ["255.255.255.255", "10.0.0.1", "127.0.0.1", "0.0.0.0"]       # m
 BOUNDARY_MACS = ["00:00:00:00:00:00", "ff:ff:ff:ff:ff:ff"]                   # the MAC ignore list
 KW11 = ["QZ%02dQ" % i for i in range(11)]   # 11 configured keywords: substitutes keyword0 .. keyword10
 
+# "overlap" group (added after a seeded change that applied the keyword replacement BEFORE the address / host-name
+# obfuscators): configured keywords that are a textual PART of an original of another kind. The statement decides what
+# must happen to the host name / address all the same: one substitute for every occurrence across specs (whatever
+# each spec's no_obfuscate says about keywords) and a mapping that lists nothing that never occurred. Every keyword is
+# a substring of at least one original of its target kind and of no text the obfuscators issue (self-checked below);
+# keywords inside MAC addresses are left out: the unchanged tree applies keyword before mac (C08's known finding).
+OVERLAP_KWS = {"host": ["db", "corp", "web0", "b.c", "mail.corp"],
+               "ip": ["1.2", "168.10", "200.1", "10.1.1"],
+               "ipv6": ["db8", "fe80", "2001:"]}
+# "sysname" group (added after a seeded change that took the system's name from config.display_name when no fqdn is
+# passed): display names a configuration may carry - outside and inside the system's domain - fed as tokens as well
+DISPLAY_NAMES = ["prod-db.inventory.example.org", "disp.corp.test"]
+
 KIND = {HOST_CASE_VARIANT: "host", OBF_FQDN: "host"}
+for _t in DISPLAY_NAMES:
+    KIND[_t] = "host"
+for _k in OVERLAP_KWS.values():
+    for _t in _k:
+        KIND[_t] = "kw"
 for _g in SPELL_V6:
     for _t in _g:
         KIND[_t] = "ipv6"
@@ -189,6 +207,22 @@ for _t in LONG_IPS:
 for _t in LONG_HOSTS:
     KIND[_t] = "host"
 INJECTIVE_KINDS = ("ip", "host")
+
+
+def _overlap_selfcheck():
+    """The overlap alphabet must not be vacuous or ambiguous: every keyword is part of >= 1 original of its kind, is no
+    token itself, and is part of nothing the obfuscators issue (host<N>.example.com, 10.230.230.<N>, keyword<N>) nor of
+    the delimiter - otherwise the expected output would no longer be decided by the statement alone."""
+    issued = "host0123456789.example.com 10.230.230.0123456789 keyword0123456789" + DELIM + OBF_FQDN
+    base = {"host": HOSTS, "ip": IPS, "ipv6": V6S}
+    for kind, kws in OVERLAP_KWS.items():
+        for kw in kws:
+            if KIND.get(kw) != "kw" or not any(kw in t for t in base[kind]) or kw in issued or \
+                    any(kw in x for x in ("example.com", "10.230.230.", "keyword", "host")):
+                raise AssertionError("vacuous / ambiguous overlap keyword %r" % kw)
+
+
+_overlap_selfcheck()
 
 
 def long_history(kind, order):
@@ -319,12 +353,77 @@ def warmup():
         cl.clean_content([WARMUP_LINE])
 
 
-def new_cleaner(scratch_dir, keywords=None):
+# ---- the system's own name as a seam the harness owns ("sysname" group) --------------------------------------
+# A case may carry "system": {"fqdn_arg": "explicit" | "absent" | "none" | "empty", "display_name": str | None,
+# "resolver": one of RESOLVERS}. The Cleaner is then built the way insights.collect builds it - from a real
+# InsightsConfig, WITHOUT an fqdn argument unless fqdn_arg says "explicit" - while the three socket calls behind
+# insights.util.hostname.determine_hostname answer with descriptor-chosen values that all denote FQDN. The real
+# determine_hostname runs (patching it away would hide the arguments it is called with).
+RESOLVERS = {
+    # name: (gethostname, getfqdn, gethostbyname_ex()[0] or an exception name)
+    "short+fqdn": (SHORT, FQDN, FQDN),
+    "fqdn-everywhere": (FQDN, FQDN, FQDN),
+    "no-dns": (SHORT, FQDN, "gaierror"),
+    "dns-says-localhost": (SHORT, FQDN, "localhost"),
+}
+FQDN_ARGS = ("explicit", "absent", "none", "empty")
+
+
+class system_seam(object):
+    """Context manager: socket.gethostname / getfqdn / gethostbyname_ex answer as the case's resolver says."""
+
+    def __init__(self, system):
+        self.system = system
+        self.saved = None
+
+    def __enter__(self):
+        if not self.system:
+            return self
+        import socket
+        host, fq, ex = RESOLVERS[self.system["resolver"]]
+
+        def gethostbyname_ex(_name):
+            if ex == "gaierror":
+                raise socket.gaierror(-2, "Name or service not known")
+            return (ex, [], ["192.0.2.10"])
+
+        self.saved = (socket.gethostname, socket.getfqdn, socket.gethostbyname_ex)
+        socket.gethostname = lambda: host
+        socket.getfqdn = lambda *a: fq
+        socket.gethostbyname_ex = gethostbyname_ex
+        return self
+
+    def __exit__(self, *exc):
+        if self.saved:
+            import socket
+            socket.gethostname, socket.getfqdn, socket.gethostbyname_ex = self.saved
+        return False
+
+
+def new_cleaner(scratch_dir, keywords=None, system=None):
     warmup()
-    cl = _cleaner_cls()(_Cfg(os.path.join(scratch_dir, "insights-client.facts")),
-                        {"keywords": list(keywords or KEYWORDS)}, fqdn=FQDN)
+    facts = os.path.join(scratch_dir, "insights-client.facts")
+    rm_conf = {"keywords": list(keywords or KEYWORDS)}
+    if system:
+        from insights.client.config import InsightsConfig
+        kw = dict(obfuscate=True, obfuscate_hostname=True, obfuscate_ipv6=True, obfuscate_mac=True)
+        if system.get("display_name") is not None:
+            kw["display_name"] = system["display_name"]
+        cfg = InsightsConfig(**kw)
+        cfg.rhsm_facts_file = facts
+        how = system["fqdn_arg"]
+        if how not in FQDN_ARGS or system["resolver"] not in RESOLVERS:
+            raise ValueError("unknown system descriptor %r" % (system,))
+        if how == "explicit":
+            cl = _cleaner_cls()(cfg, rm_conf, FQDN)
+        elif how == "absent":
+            cl = _cleaner_cls()(cfg, rm_conf)
+        else:
+            cl = _cleaner_cls()(cfg, rm_conf, fqdn=None if how == "none" else "")
+    else:
+        cl = _cleaner_cls()(_Cfg(facts), rm_conf, fqdn=FQDN)
     cl.report_dir = scratch_dir            # the constructor hard-codes /tmp
-    cl.rhsm_facts_file = os.path.join(scratch_dir, "insights-client.facts")
+    cl.rhsm_facts_file = facts
     return cl
 
 
@@ -599,8 +698,10 @@ def address_class(tok):
     return _ADDR_CLASS[tok]
 
 
-def oracle(obs, ev, out, maps):
+def oracle(obs, ev, out, maps, kws=None):
     """-> (violations, new_obs, stats). violations: [(clause, expected, observed, involved originals)].
+    kws: the keywords the Cleaner was configured with (None = only whole-token occurrences count for keywords); a
+    configured keyword that is a textual part of an input line has 'occurred in the content' (clause 4).
     obs maps an original to the text observed in its place, or to None when it has occurred but nothing is
     remembered about it (it only occurred in specs exempted by no_obfuscate, or it was involved in a known-defect
     trigger and forgotten - see forgive())."""
@@ -624,6 +725,13 @@ def oracle(obs, ev, out, maps):
             info["tags"].add("text:%s" % ("same" if sub == tok else "rewritten"))
             continue
         live.append((tok, sub))
+        if tok in (FQDN, SHORT) and sub == tok:
+            # (6) the system's own name is an original of the host-name obfuscator whatever the configuration says
+            # about display names: the statement's mapping clause names it ("nor as the system's own name") and
+            # clause (1) presupposes that an occurring original IS replaced. Host-name obfuscation is enabled in
+            # every configuration this driver builds and this spec does not exempt it.
+            v.append(("system-name:own-name-is-replaced", {"original": tok, "replaced": True},
+                      {"original": tok, "substitute": sub, "event_output": out}, [tok]))
         prev = new.get(tok)
         if prev is None:
             new[tok] = sub
@@ -665,6 +773,12 @@ def oracle(obs, ev, out, maps):
             info["glued"] = info.get("glued", 0) + 1
     if ev["mode"] != "content":
         info["tags"].add("mode:" + ev["mode"])
+    if kws:
+        text = "\n".join(event_lines(ev))
+        for kw in kws:
+            if kw not in new and kw in text:
+                new[kw] = None                 # occurred in the content as part of another token
+                info["tags"].add("kw:part-of-token")
     pairs = set((t, s_) for t, s_ in new.items() if s_ is not None) | set(live)
     # (2) distinct originals -> distinct substitutes (IPv4, host names), among replaced originals
     for kind in INJECTIVE_KINDS:
@@ -837,7 +951,7 @@ def forgive(new_obs, viols, feats):
 _NOINFO = {"recurrences": 0, "tags": frozenset(), "unreplaced_equal_to_substitute": 0}
 
 
-def step(cl, obs, event):
+def step(cl, obs, event, kws=None):
     """Calls the real code once. -> (violations, new_obs, info, maps)"""
     ev = norm_event(event)
     try:
@@ -848,7 +962,7 @@ def step(cl, obs, event):
         maps = read_mappings(cl)
     except Exception as ex:
         return [("raises:mapping", "no exception", repr(ex), [])], dict(obs), dict(_NOINFO), {}
-    v, new, info = oracle(obs, ev, out, maps)
+    v, new, info = oracle(obs, ev, out, maps, kws)
     return v, new, info, maps
 
 
@@ -865,10 +979,10 @@ def may_forgive(forgiven_so_far, event_index):
     return forgiven_so_far < MAX_FORGIVEN and event_index < FORGIVE_WITHIN
 
 
-def advance(cl, obs, event, with_reports, may_forgive=True):
+def advance(cl, obs, event, with_reports, may_forgive=True, kws=None):
     """One event with the oracle and the continuation rule; with_reports adds clause (5) on the memory the history
     continues with. -> (violations, features, obs to continue with or None = cut, info, maps)"""
-    v, new, info, maps = step(cl, obs, event)
+    v, new, info, maps = step(cl, obs, event, kws)
     feats = [trigger_features(event, inv, obs, maps) for _c, _e, _g, inv in v]
     cont = (forgive(new, v, feats) if may_forgive else None) if v else new
     if with_reports and cont is not None:
@@ -898,16 +1012,18 @@ def run_history(case):
         return check_fresh_process(case), {"recurrences": 0, "events": len(case["second"])}
     hist = case["history"]
     kws = case_keywords(case)
+    system = case.get("system")
+    okws = kws if case.get("keywords_may_be_part_of_tokens") else None
     stats = {"recurrences": 0, "events": len(hist), "forgiven_events": 0}
-    with tmp.scratch("c09") as d:
-        cl = new_cleaner(d, kws)
+    with tmp.scratch("c09") as d, system_seam(system):
+        cl = new_cleaner(d, kws, system)
         obs = {}
         for i, event in enumerate(hist):
             if norm_event(event)["new_cleaner"]:
-                cl = new_cleaner(d, kws)
+                cl = new_cleaner(d, kws, system)
                 obs = {}
                 stats["forgiven_events"] = 0
-            v, feats, cont, info, _maps = advance(cl, obs, event, True, may_forgive(stats["forgiven_events"], i))
+            v, feats, cont, info, _maps = advance(cl, obs, event, True, may_forgive(stats["forgiven_events"], i), okws)
             stats["recurrences"] += info["recurrences"] + info.get("spellings", 0)
             if v and (cont is None or i == len(hist) - 1):
                 out = []
@@ -970,8 +1086,10 @@ def replay(case):
     return out
 
 
-def mk_case(hist, keywords=None):
-    return {"fqdn": FQDN, "keywords": list(keywords or KEYWORDS), "delimiter": DELIM, "history": hist}
+def mk_case(hist, keywords=None, **extra):
+    case = {"fqdn": FQDN, "keywords": list(keywords or KEYWORDS), "delimiter": DELIM, "history": hist}
+    case.update(extra)
+    return case
 
 
 # ---- event menus, units ------------------------------------------------------------------------------
@@ -1104,6 +1222,44 @@ def shape_cases():
             sp.append(mk_case([{"lines": [[x]], "mode": "string"}, {"lines": [[y], [x, y]], "mode": "file"}]))
     for x, y in itertools.product(SPELL_V6[0], SPELL_V6[1]):
         sp.append(mk_case([[[x, y]], [[SPELL_V6[1][0], SPELL_V6[0][2]]], [[y, x]]]))
+    # overlap: a configured keyword that is a textual part of a host name / IPv4 / IPv6 original; every ordered pair of
+    # originals of the kind of which at least one contains the keyword, through specs that exempt nothing / the
+    # keyword replacement / the kind itself, in the orders below; and the keyword as a token of its own next to it
+    ov = g.setdefault("overlap", [])
+    for kind in ("host", "ip", "ipv6"):
+        name = EXEMPT_NAME[kind]
+        for kw in OVERLAP_KWS[kind]:
+            for kwl in ([KEYWORDS[0], kw], [kw, KEYWORDS[0]]):
+                mk = lambda h: mk_case(h, kwl, keywords_may_be_part_of_tokens=True)
+                for a, b in pairs(SH_SMALL[kind]):
+                    if kw not in a and kw not in b:
+                        continue
+                    n1, n2 = [[a, b]], [[b], [a]]
+                    ek = lambda ls: {"lines": ls, "no_obfuscate": ["keyword"]}
+                    eo = lambda ls: {"lines": ls, "no_obfuscate": [name]}
+                    if kwl[0] == kw and a != b:
+                        continue               # the second keyword order only for the one-original histories
+                    ov.append(mk([n1, ek(n2), n1]))
+                    ov.append(mk([ek(n1), n2]))
+                    ov.append(mk([eo(n1), n1, ek(n2)]))
+                    ov.append(mk([[[kw, a], [b]], ek([[b, kw, a]]), [[a, b, kw]]]))
+    # sysname: how the Cleaner learns the system's own name - fqdn argument explicit / absent / None / "" x display name
+    # absent / empty / outside the domain / inside the domain / equal to the FQDN x what the resolver calls answer
+    sy = g.setdefault("sysname", [])
+    sys_hists = []
+    others = ["db.corp.test"] + DISPLAY_NAMES
+    for o in others:
+        sys_hists.append([[[FQDN, o]], [[SHORT], [FQDN]]])
+        sys_hists.append([[[SHORT]], [[o, FQDN]], [[FQDN, SHORT]]])
+    sys_hists.append([[[FQDN]]])
+    sys_hists.append([[["db.corp.test"]], [[SHORT, "mail.corp.test"]]])
+    for how in FQDN_ARGS:
+        for dn in [None, ""] + DISPLAY_NAMES + [FQDN]:
+            for rname in sorted(RESOLVERS):
+                if how == "explicit" and rname != "short+fqdn":
+                    continue                   # the resolver is not consulted (measured by the other rows) - one row is enough
+                for h in sys_hists:
+                    sy.append(mk_case(h, system={"fqdn_arg": how, "display_name": dn, "resolver": rname}))
     # fresh-process: the second Cleaner of a process against the first Cleaner of a fresh interpreter
     fp = g.setdefault("fresh-process", [])
     h1 = [[["1.2.3.4", "db.corp.test"], [MAC1, "SECRETKW"]], [["10.1.1.1", V6_1, "mail.corp.test"]]]
